@@ -25,10 +25,18 @@ def correspondence(ctx):
 
 # ------------------------------------------------------------------ oracle on the real code
 def _metric(cfg, alt=None, cl=None):
+    import hashlib
+    import tea_tasting as tt
     import tea_tasting.metrics.mean as M
-    return M.RatioOfMeans(cfg["numer"], cfg["denom"], cfg["numer_covariate"], cfg["denom_covariate"],
-                          alternative=alt or cfg["alternative"], confidence_level=float(cl or cfg["confidence_level"]),
-                          equal_var=cfg["equal_var"], use_t=cfg["use_t"])
+    kw = dict(alternative=alt or cfg["alternative"], confidence_level=float(cl or cfg["confidence_level"]),
+              equal_var=cfg["equal_var"], use_t=cfg["use_t"])
+    cols = (cfg["numer"], cfg["denom"], cfg["numer_covariate"], cfg["denom_covariate"])
+    key = int(hashlib.sha1(repr((sorted(kw.items()), cols)).encode()).hexdigest(), 16)
+    if key % 3 == 0:
+        # every option SUPPLIED BY THE GLOBAL CONFIGURATION in force at construction instead of explicitly: the same metric
+        with tt.config_context(**kw):
+            return M.RatioOfMeans(*cols)
+    return M.RatioOfMeans(*cols, **kw)
 
 
 @H.under_contrary_config
@@ -149,11 +157,13 @@ def oracle(ctx, deep=False):
     import scipy.stats as st
     for ev in (False, True):
         for alt in meanx.ALTS:
-            for n in (1000, 20000):
+            for n in (1000, 20000, 150000):
                 for cl in (F(95, 100), F(975, 1000)):
-                    for side in (1 - 2e-4, 1 + 2e-4):
+                    for side in (1 - 2e-4, 1 + 2e-4, "between"):
                         df = 2 * n - 2
                         q = (1 + float(cl)) / 2 if alt == "two-sided" else float(cl)
+                        if side == "between":      # exactly between the normal and the t critical value
+                            side = (st.norm.ppf(q) + st.t.ppf(q, df)) / 2 / st.t.ppf(q, df)
                         crit = st.t.ppf(q, df) * side * (-1 if alt == "less" else 1)
                         m1, v = 10.0, 1.0
                         m2 = m1 + crit * (2 * v / n) ** 0.5
